@@ -269,6 +269,8 @@ def g_filter(r: random.Random, p: Profile, depth=None, wire_domain=True) -> tupl
         if r.random() < 0.004:
             fan = r.choice([31, 32, 63, 64, 127, 128, 130, 256])
         kids = [g_filter(r, p, depth - 1 if i == 0 else r.randrange(0, depth)) for i in range(fan)]
+        if kids and r.random() < 0.12:  # the same clause twice (adjacent or not): SET OF may hold equal members
+            kids.insert(r.randrange(0, len(kids) + 1), r.choice(kids))
         return (k, tuple(kids))
     k = r.choice(FILTER_LEAVES)
     attr = g_attrdesc(r) if r.random() < 0.7 else g_text(r, p)
